@@ -1,0 +1,32 @@
+//go:build verif
+
+package xbinary
+
+// Contracts for the deductive verifier in /verif (gocv). Comment-only file,
+// compiled only under the `verif` build tag.
+
+//@ func noBufErr(src string, ln, req int) error
+//@   props C15 C16
+//@   ensures r0 != nil
+
+//@ func UnmarshalByte(buf []byte) (int, byte, error)
+//@   props C15 C16
+//@   ensures r2 != nil ==> r0 == 0 && r1 == 0
+//@   ensures r2 == nil ==> r0 == 1 && r0 <= len(buf) && r1 == buf[0]
+//@   ensures len(buf) >= 1 ==> r2 == nil
+
+//@ func UnmarshalUint(buf []byte) (int, uint, error)
+//@   props C15 C16
+//@   arith bv
+//@   ensures r2 != nil ==> r0 == 0 && r1 == 0
+//@   ensures r2 == nil ==> 1 <= r0 && r0 <= len(buf)
+//@   loop 1
+//@     invariant 0 <= idx && idx <= len(buf)
+//@     decreases len(buf) - idx
+
+//@ func UnmarshalBytes(buf []byte, newBuf bool) (int, []byte, error)
+//@   props C15 C16
+//@   ensures r2 != nil ==> r0 == 0 && r1 == nil
+//@   ensures r2 == nil ==> 1 <= r0 && r0 <= len(buf) && len(r1) <= r0 - 1
+//@   ensures r2 == nil && !newBuf ==> sameArray(r1, buf) && off(r1) == off(buf) + r0 - len(r1)
+//@   ensures r2 == nil && newBuf ==> fresh(r1) && forall(i, 0, len(r1), r1[i] == buf[r0 - len(r1) + i])
